@@ -507,6 +507,13 @@ func patternsC15(c *Ctx) {
 		if re.Op == syntax.OpConcat {
 			seq = re.Sub
 		}
+		// (q) the pattern starts with its keyword and is searched for anywhere in
+		// the raw text: nothing makes a match start outside a quoted string or
+		// identifier (a tokenising pattern would first consume those as
+		// alternatives)
+		if len(seq) > 0 && seq[0].Op == syntax.OpLiteral {
+			c.Bad("C15.patterns", gname+": (q) keywords matched inside quoted tokens", pos, "the keyword is looked for in the raw text, quoted strings and identifiers included: a match that starts inside a quoted token takes the wrong span (the quote that closes the real password is cut off) or rewrites text that holds no password")
+		}
 		isWS := func(r *syntax.Regexp) (bool, bool) { // (is a whitespace separator, admits empty)
 			switch r.Op {
 			case syntax.OpPlus, syntax.OpStar, syntax.OpQuest:
